@@ -327,6 +327,43 @@ fn op_to_gbp(case: &Value, fx: &cgt_money::FxCache) -> Value {
     }
 }
 
+/// validation::validate on API-level transactions: the 1-based positions that carry an error.
+fn op_validate(case: &Value) -> Value {
+    let ts = match build_txns(&case["txns"]) {
+        Ok(t) => t,
+        Err(e) => return json!({"ok": false, "stage": "build", "error": e}),
+    };
+    let r = cgt_core::validate(&ts);
+    let mut lines: Vec<usize> = r.errors.iter().filter_map(|e| e.line).collect();
+    lines.sort_unstable();
+    lines.dedup();
+    json!({"ok": true, "is_valid": r.is_valid(), "error_lines": lines, "warnings": r.warnings.len()})
+}
+
+/// Arbitrary bytes through every text entry point of the library: each must return Ok or Err.
+fn op_bytes(case: &Value, fx: &cgt_money::FxCache) -> Value {
+    let bytes = hex_decode(case["hex"].as_str().unwrap_or(""));
+    let text = String::from_utf8_lossy(&bytes).to_string();
+    let mut out = serde_json::Map::new();
+    let parsed = parse_file(&text);
+    out.insert("parse".into(), json!(parsed.is_ok()));
+    if let Ok(ts) = &parsed {
+        let cfg = Config::embedded().unwrap_or_default();
+        out.insert("calculate".into(), json!(calculate(ts, None, Some(fx), &cfg).is_ok()));
+        out.insert("validate".into(), json!(cgt_core::validate(ts).is_valid()));
+        out.insert("to_dsl".into(), json!(cgt_core::dsl::transactions_to_dsl(ts).len()));
+    }
+    out.insert("json".into(), json!(serde_json::from_str::<Vec<Transaction>>(&text).is_ok()));
+    {
+        use cgt_converter::BrokerConverter;
+        use cgt_converter::schwab::{SchwabConverter, SchwabInput};
+        let r = SchwabConverter::new().convert(&SchwabInput { transactions_json: text.clone(), awards_json: Some(text.clone()) });
+        out.insert("schwab".into(), json!(r.is_ok()));
+    }
+    out.insert("fx_xml".into(), json!(cgt_money::parse_monthly_rates(&text, cgt_money::RateSource::Bundled { period: None }, None).is_ok()));
+    json!({"ok": true, "outcomes": out})
+}
+
 /// The embedded exemption table, so that both sides are given the code's own data.
 fn op_config() -> Value {
     match Config::embedded() {
@@ -371,6 +408,8 @@ fn main() {
             "format" => op_format(&case, &fx),
             "schwab" => op_schwab(&case),
             "rates" => op_rates(&fx),
+            "validate" => op_validate(&case),
+            "bytes" => op_bytes(&case, &fx),
             "to_gbp" => op_to_gbp(&case, &fx),
             _ => json!({"ok": false, "stage": "harness", "error": format!("unknown op {op}")}),
         }));
